@@ -32,6 +32,16 @@ DRIVERS2 = [
     ([GC], [GC]),
     ([AL, AL], [AL, AL]),
 ]
+SEND, RECV = ("send",), ("recv",)
+# (threads that lived and were joined before, threads of the experiment): lifetimes that do not overlap, and an ordering by a channel so that
+# "afterwards" in the property is observable (the receiver must see what the sender assigned before sending)
+DRIVERS_PHASED = [
+    ([[]], ([S2, SEND], [RECV, R])),
+    ([[S1]], ([S2, SEND], [RECV, R])),
+    ([[]], ([RECV, R], [S1, SEND])),
+    ([[R]], ([S2, SEND, R], [RECV, R, S1])),
+    ([[], []], ([GC, S2, SEND], [RECV, R])),
+]
 DRIVERS3 = [
     ([R], [S1], [GC]),
     ([GC], [S1, R], [R, R]),
@@ -63,12 +73,23 @@ def root_items(tier):
         items.append((list(d), b2))
     for d in DRIVERS3:
         items.append((list(d), b3))
+    for earlier, d in DRIVERS_PHASED:
+        items.append((["phased", list(earlier)] + list(d), b2))
     return items
+
+
+def program_and_reference(threads):
+    if threads and threads[0] == "phased":
+        earlier, ths = threads[1], threads[2:]
+        return schedx.driver_program_phases(earlier, ths), schedx.reference_outcomes_phases(earlier, ths)
+    prog = schedx.driver_program(threads)
+    ref = schedx.reference_outcomes(threads) if not any(o[0] in ("define", "readh") for t in threads for o in t) else None
+    return prog, ref
 
 
 def work_root(item):
     threads, bound = item
-    prog = schedx.driver_program(threads)
+    prog, _ = program_and_reference(threads)
     val, rep, ex = schedx.run_schedule(schedx.PRE, prog, [])
     if rep is None:
         return (item, None, "no report: exit=%s" % ex)
@@ -78,8 +99,7 @@ def work_root(item):
 
 def work_sub(item):
     threads, bound, roots, include_root = item
-    prog = schedx.driver_program(threads)
-    ref = schedx.reference_outcomes(threads) if not any(o[0] in ("define", "readh") for t in threads for o in t) else None
+    prog, ref = program_and_reference(threads)
     tot = {"runs": 0, "outcomes": {}, "failures": [], "divergent": 0, "capped": False, "maxpoints": 0, "deadlocks": 0}
     todo = ([[]] if include_root else []) + roots
     for root in todo:
@@ -123,7 +143,7 @@ def main(argv=None):
     items = []
     for (threads, bound), kids, err in roots:
         if err:
-            rep.violation("machinery :: %s :: %s" % (json.dumps(threads), err), {"driver": threads, "error": err}, {"case": {"steps": [schedx.PRE, schedx.driver_program(threads)]}, "env": None})
+            rep.violation("machinery :: %s :: %s" % (json.dumps(threads), err), {"driver": threads, "error": err}, {"case": {"steps": [schedx.PRE, program_and_reference(threads)[0]]}, "env": None})
             continue
         parts = common.split_round_robin(kids, 6) or [[]]
         for i, part in enumerate(parts):
@@ -145,7 +165,11 @@ def main(argv=None):
     table = {}
     for key, d in per.items():
         total_runs += d["runs"]
-        name = " || ".join(" ".join("/".join(str(x) for x in o) for o in t) or "-" for t in d["threads"])
+        ths = d["threads"]
+        if ths and ths[0] == "phased":
+            name = "after " + " ; ".join(" ".join("/".join(str(x) for x in o) for o in t) or "-" for t in ths[1]) + " => " + " || ".join(" ".join("/".join(str(x) for x in o) for o in t) or "-" for t in ths[2:])
+        else:
+            name = " || ".join(" ".join("/".join(str(x) for x in o) for o in t) or "-" for t in ths)
         table[name] = {"schedules": d["runs"], "bound": d["bound"], "distinct_results": len(d["outcomes"]), "max_scheduling_points": d["maxpoints"], "divergent_replays": d["divergent"],
                        "capped": d["capped"], "deadlocked_schedules(C16)": d["deadlocks"]}
         by_class = {}
@@ -157,11 +181,11 @@ def main(argv=None):
             n = sum(1 for f in d["failures"] if f[1] == cls)
             rep.violation("%s :: threads %s :: %s" % (cls, name, detail if cls != "inconsistent-result" else "a result that no interleaving of the reads and writes produces"),
                           {"driver": d["threads"], "class": cls, "detail": detail, "schedules_failing": n, "schedules_explored": d["runs"], "shortest_choice_prefix": prefix},
-                          {"case": {"steps": [schedx.PRE, {"op": "sched_arm", "choices": prefix, "report_path": "/dev/null"}, schedx.driver_program(d["threads"]), {"op": "sched_report"}]}, "env": None})
+                          {"case": {"steps": [schedx.PRE, {"op": "sched_arm", "choices": prefix, "report_path": "/dev/null"}, program_and_reference(d["threads"])[0], {"op": "sched_report"}]}, "env": None})
     cov = {"evaluations": total_runs, "distinct_nontrivial": total_runs,
-           "rule": "every schedule with at most 2 preemptions (3-thread drivers: %d) of %d two-thread and %d three-thread drivers; a scheduling point is every gate of hook H7 "
-                   "reached by the running thread; each schedule re-executes the driver on a freshly forked engine" % (2 if a.tier == "thorough" else 1, len(DRIVERS2), len(DRIVERS3)),
-           "samples": [schedx.driver_program(list(DRIVERS2[0])), schedx.driver_program(list(DRIVERS3[0]))], "exhaustive": not any(t["capped"] for t in table.values()), "drivers": table}
+           "rule": "every schedule with at most 2 preemptions (3-thread drivers: %d) of %d two-thread, %d three-thread and %d phased drivers (threads that exited before the others were spawned; ordering through a channel); a scheduling point is every gate of hook H7 "
+                   "reached by the running thread; each schedule re-executes the driver on a freshly forked engine" % (2 if a.tier == "thorough" else 1, len(DRIVERS2), len(DRIVERS3), len(DRIVERS_PHASED)),
+           "samples": [schedx.driver_program(list(DRIVERS2[0])), schedx.driver_program(list(DRIVERS3[0])), schedx.driver_program_phases(*[list(x) for x in DRIVERS_PHASED[1]])], "exhaustive": not any(t["capped"] for t in table.values()), "drivers": table}
     return rep.finish("model_checking", cov, assumptions=["interleavings are sequentially consistent at gate granularity: weak-memory reorderings of the relaxed flag accesses are not explored",
                                                            "a thread that does not reach its next gate within 25 ms is treated as blocked in native code"])
 
